@@ -74,6 +74,10 @@ func genLossy(p *simkit.Plan, r *simkit.Rand, tier string) {
 	c["delete_staged"] = int64(r.Intn(5))            // 1 = yes
 	c["edit_at"] = int64(r.Range(1, 30))
 	c["internal_staging"] = int64(r.Intn(2))
+	// A finite staging size limit placed just below, at, or above the size of
+	// one of the planned files (0 = unlimited).
+	c["staging_limit_delta"] = int64(simkit.Pick(r, []int{0, 0, 1, 2, 100, 5000, -1, -300}))
+	c["staging_limit_file"] = int64(r.Intn(8))
 }
 
 // lossyEncoder applies the plan's fault rules to the transmission stream and
@@ -148,6 +152,23 @@ func execLossy(t *testing.T, plan *simkit.Plan) *simkit.Result {
 		cfg := &synchronization.Configuration{WatchMode: synchronization.WatchMode_WatchModeNoWatch, Ignores: []string{"*.ign"}}
 		if plan.C("internal_staging") == 1 {
 			cfg.StageMode = synchronization.StageMode_StageModeInternal
+		}
+		if delta := plan.C("staging_limit_delta"); delta != 0 {
+			// Pick the size of the k-th source file as the reference.
+			var sizes []int64
+			filepath.Walk(c.d.roots["alpha"], func(p string, info os.FileInfo, err error) error {
+				if err == nil && info.Mode().IsRegular() {
+					sizes = append(sizes, info.Size())
+				}
+				return nil
+			})
+			if len(sizes) > 0 {
+				ref := sizes[int(plan.C("staging_limit_file"))%len(sizes)]
+				if limit := ref - delta; limit > 0 {
+					cfg.MaximumStagingFileSize = uint64(limit)
+					s.Count("probe.staging_size_limit_set", 1)
+				}
+			}
 		}
 		ctx := context.Background()
 		src := c.endpoint("alpha", true, cfg)
